@@ -96,8 +96,17 @@ class Ctx:
         if not os.path.exists(logp):
             return
         t0 = time.time()
+        def enough(rej):
+            n = 0
+            for r in rej:
+                if r.get("event") is None:
+                    continue
+                c = core.read_case(cases_path, r["case"]) if r.get("case") is not None else None
+                if self.prop in attribute_event(c, r["event"])[0]:
+                    n += 1
+            return n >= 3
         ok, rejected, states = core.validate_trace(self.outdir, "%s.%s.%s.cap%d" % (label, profile, elem, cap), module, logp,
-                                                   invariants=invariants, priority=getattr(self, "priority_event", None))
+                                                   invariants=invariants, priority=getattr(self, "priority_event", None), enough=enough)
         nev = core.count_lines(logp)
         self.events_validated += ok
         self.traces_validated += 1
@@ -186,8 +195,10 @@ class Ctx:
                         fo.write(line)
             logp = tmp
         nev = core.count_lines(logp)
+        def enough(rej):
+            return sum(1 for r in rej if r.get("event") is not None and self.prop in attribute_event(None, r["event"])[0]) >= 3
         ok, rejected, states = core.validate_trace(self.outdir, "%s.%s" % (label, profile), module, logp, invariants=invariants,
-                                                   priority=getattr(self, "priority_event", None))
+                                                   priority=getattr(self, "priority_event", None), enough=enough)
         self.events_validated += ok
         self.traces_validated += 1
         self.tlc.append({"name": "trace:" + label, "module": module, "states_generated": states, "distinct_states": states,
